@@ -169,13 +169,16 @@ class Categorize(Factory, Container):
 
     @inheritdoc(Container)
     def zero(self):
-        return Categorize(self.quantity, self.value)
+        out = Categorize(self.quantity, self.value)
+        out.contentType = self.contentType
+        return out
 
     @inheritdoc(Container)
     def __add__(self, other):
         if isinstance(other, Categorize):
             self._checkContent(other)
             out = Categorize(self.quantity, self.value)
+            out.contentType = self.contentType
             out.entries = self.entries + other.entries
             out.bins = {}
             for k in self.keySet.union(other.keySet):
